@@ -339,6 +339,38 @@ def _case(arg):
             res.violation(f"{tag}:node-outside-domain", f"{tag}: nodes outside the declared domain {dom}", case)
     else:
         res.inadm()
+    # two-step histories on the same (transformation, grid) pair: a second call after the first result was edited in
+    # place gives the first result again, and a call after the grid's weights / points were reassigned through their
+    # setters transforms the NEW contents (a result remembered per pair of objects fails both)
+    res.count()
+    try:
+        with warnings.catch_warnings(), np.errstate(all="ignore"):
+            warnings.simplefilter("ignore")
+            p_first, w_first = np_pts.copy(), np_w.copy()
+            # (through the setters: the identity map hands the grid's own point array on, so an in-place edit of the
+            # result would edit the argument, which is outside this property)
+            new.weights = new.weights * 3.0 + 1.0
+            new.points = new.points - 0.5
+            again = tf.transform_1d_grid(rule)
+            if not (np.array_equal(again.points, p_first, equal_nan=True) and np.array_equal(again.weights, w_first, equal_nan=True)):
+                res.violation(f"{tag}:history:second-call-differs-after-first-result-edited",
+                              f"{tag}: transform_1d_grid({rule_name}({n})) called again after the first result's arrays were reassigned "
+                              f"does not return the first result's original values", case)
+            rule.weights = 2.0 * w
+            doubled = tf.transform_1d_grid(rule)
+            if not np.array_equal(doubled.weights, 2.0 * w_first, equal_nan=True) or not np.array_equal(doubled.points, p_first, equal_nan=True):
+                res.violation(f"{tag}:history:stale-after-weights-reassigned",
+                              f"{tag}: after rule.weights = 2 w the transformed weights are not twice the earlier ones", case)
+            rule.points = x[::-1].copy()
+            rule.weights = w[::-1].copy()
+            flipped = tf.transform_1d_grid(rule)
+            if not np.array_equal(flipped.points, p_first[::-1], equal_nan=True) or not np.array_equal(flipped.weights, w_first[::-1], equal_nan=True):
+                res.violation(f"{tag}:history:stale-after-points-reassigned",
+                              f"{tag}: after the grid's points and weights were reassigned in reverse order the transformed grid is "
+                              f"not the reverse of the earlier one", case)
+            res.nontrivial()
+    except Exception as exc:
+        res.violation(f"{tag}:history:raised:{type(exc).__name__}", f"{tag}: repeated transform_1d_grid raised {type(exc).__name__}: {exc}", case)
     res.sample({"rule": rule_name, "n": n, "transform": tag, "params": p0})
     return res.as_dict()
 
